@@ -82,6 +82,12 @@ class _Capture(logging.Handler):
         repo = os.path.realpath(REPO)
         while tb is not None:
             fn = tb.tb_frame.f_code.co_filename
+            if fn.startswith(_HERE) and tb.tb_frame.f_code.co_name in (
+                    'pop', '__delitem__'):
+                # TrackDict (Watcher.processes with attribution): a KeyError
+                # from it is the KeyError of circus' own dict operation
+                tb = tb.tb_next
+                continue
             if fn.startswith(_HERE) or fn.startswith(repo) or \
                     fn.startswith(REPO):
                 last = fn
